@@ -354,6 +354,8 @@ let e2e6_record (tok : string) : string =
   | None ->
     let spec = Option.map (fun (m, _) -> nat_of_int m) r.spec in
     if r.res = "timeout" && timeout_accepted r then "ok"
+    else if r.res = "timeout" && r.tmo <> None && not (prop_timeout_frames r.tr r.mg r.frs)
+    then "viol e2e frame-after-the-timeout " ^ rec_summary r        (* C06_e2e_timeout_frames *)
     else if not (prop_frames r.pol r.idem spec (nat_of_int r.nn) r.frs)
     then "viol e2e frames-violate-property " ^ rec_summary r
     else "diff e2e unexpected-result " ^ rec_summary r
